@@ -358,6 +358,13 @@ class CallMixin:
     def havoc_modifies(self, st, c, sf, pre_heap):
         """modifies entries: 'expr.field' (one location) | ('Class.field', 'lambda r: pred') | 'alloc'."""
         for m in c.modifies:
+            if m == 'clock':
+                key = ('$clock', 0)
+                arr = self.H.get(st.heap, key, R)
+                t = z3.Real(fresh_name('clk'))
+                st.assume(t >= z3.Select(arr, 0))       # the callee may read the clock: it only advances
+                st.heap[key] = z3.Store(arr, 0, t)
+                continue
             if m == 'alloc':
                 al = self.alive_arr(st.heap)
                 new = z3.Const(fresh_name('alive'), al.sort())
